@@ -1,10 +1,11 @@
 """C08 - Bert-E never rewrites or deletes what it does not own."""
 import ast
+import re
 import itertools
 
 from ..program import AnalysisError, walk_local, dotted
 from ..analysis import Spec, src, const_value
-from ..rules import (string_template, GWF, EXC, mpt, need_func, stores_to, raise_class,
+from ..rules import (cond_tree, string_template, GWF, EXC, mpt, need_func, stores_to, raise_class,
                      parent_map, kw, is_const, eval_atom, UNKNOWN)
 from . import common, gitcmds
 from .c07 import _explore
@@ -223,14 +224,23 @@ def remove_guard(prog, an, rep):
     c = an.cfg(f)
     lits = []
     atoms = []
+    # owner tests: <self>.name.startswith('<prefix>'), in any spelling
+    # (one call per prefix, a tuple of prefixes, through a local)
+    pat = re.compile(r"^%s\.name\.startswith\('([^']*)'\)$" % f.params[0])
+
+    def collect(t):
+        if t[0] == 'atom':
+            m = pat.match(t[1])
+            if m and t[1] not in atoms:
+                lits.append(m.group(1))
+                atoms.append(t[1])
+        elif t[0] == 'not':
+            collect(t[1])
+        elif t[0] in ('and', 'or'):
+            for k in t[1]:
+                collect(k)
     for t in an.test_nodes(f, lambda e: True):
-        e = t.ast
-        if isinstance(e, ast.Call) and isinstance(e.func, ast.Attribute) \
-                and e.func.attr == 'startswith' and \
-                src(e.func.value) == 'self.name' and e.args and \
-                isinstance(e.args[0], ast.Constant):
-            lits.append(e.args[0].value)
-            atoms.append(src(e))
+        collect(cond_tree(t.ast, f))
     force = 'force' if 'force' in f.params else None
     rep.check(force is not None, R, f.qname + ': force parameter',
               f.where(), 'Branch.remove lost its force parameter')
